@@ -328,14 +328,44 @@ class Abstraction:
                         self.sub[apps[k][2].uid] = tm.mul(r1, r2)
                         done = True
                         break
-        # log(exp-var) = its argument
+        # log(exp-var) = its argument ;  log(S·exp(a)^{±1}) = log(S) ± a  (proved after the exp substitutions)
+        import math
+
         for k in range(self._reduced, len(apps)):
             if apps[k][0] != "log":
                 continue
             S = apps[k][1][0]
+            done = False
             for i in range(len(apps)):
                 if apps[i][0] == "exp" and S is apps[i][2]:
                     self.sub[apps[k][2].uid] = arg(i)
+                    done = True
+            if done or num[k][0] is None or num[k][0] <= 0:
+                continue
+            for l in range(k):
+                if done:
+                    break
+                if apps[l][0] != "log" or num[l][0] is None or num[l][0] <= 0:
+                    continue
+                ratio = num[l][0] / num[k][0]  # S_l / S_k
+                for i in range(len(apps)):
+                    if apps[i][0] != "exp" or num[i][1] is None:
+                        continue
+                    for sign in (1, -1):
+                        if close(ratio, num[i][1] ** sign):
+                            vi = apps[i][2]
+                            lhs = tm.mul(S, vi) if sign == 1 else tm.div(S, vi)
+                            a2 = tm.substitute([lhs, apps[l][1][0]], self.sub)
+                            for _ in range(2):
+                                a2 = tm.substitute(a2, self.sub)
+                            if prove(a2[0], a2[1]):
+                                # S_k · v_i^{sign} = S_l  =>  log S_k = log S_l - sign·a_i
+                                ul = self.sub.get(apps[l][2].uid, apps[l][2])
+                                self.sub[apps[k][2].uid] = tm.sub(ul, arg(i)) if sign == 1 else tm.add(ul, arg(i))
+                                done = True
+                                break
+                    if done:
+                        break
         self._reduced = len(apps)
         return self.sub
 
